@@ -162,5 +162,9 @@ Definition run_line (l : bytes) : bytes :=
       do m <- untok_bytes m; do h <- untok_bytes h; do p <- untok_bytes p; do names <- parse_names names;
       if bytes_eqb mode B"A" || bytes_eqb mode B"E" then show_result names (route api_endpoint web_endpoint h p m)
       else parse_error
+  | [mode; m; h; p; names; api; web] =>      (* mode N: mode A under another endpoint configuration *)
+      do m <- untok_bytes m; do h <- untok_bytes h; do p <- untok_bytes p; do names <- parse_names names;
+      do api <- untok_bytes api; do web <- untok_bytes web;
+      if bytes_eqb mode B"N" then show_result names (route api web h p m) else parse_error
   | _ => parse_error
   end.
